@@ -161,8 +161,8 @@ def run(ctx):
         return rr, tf
 
     tfiles = []
-    # (thorough: every padded scenario is compiled with the real builders, a few GB each: eight at a time)
-    with ThreadPoolExecutor(max_workers=len(shards) if ctx.tier == "quick" else min(8, len(shards))) as ex:
+    # (thorough: every padded scenario is compiled with the real builders, a few GB each: six at a time)
+    with ThreadPoolExecutor(max_workers=len(shards) if ctx.tier == "quick" else min(6, len(shards))) as ex:
         for rr, tf in ex.map(one, range(len(shards))):
             ctx.absorb(rr, "c06")
             tfiles.append(tf)
